@@ -1,0 +1,12 @@
+//go:build verif
+
+package kgo
+
+// This file exists only in builds with the `verif` tag. It exports a few
+// unexported pure functions so that an external verification harness can
+// run them on generated inputs. Nothing here changes client behavior.
+
+// VerifIncrementSequence exposes incrementSequence.
+func VerifIncrementSequence(sequence, increment int32) int32 {
+	return incrementSequence(sequence, increment)
+}
